@@ -913,6 +913,50 @@ func (g *gen) topology() *pkiT {
 		p.fixedInters = []int{s12, s13, s2, s3}
 		g.leaves(p, []int{c1}, c1)
 		g.dp = save
+	case k < 92: // cross-certificates of ROOTS (the root's name and key, issued by another authority) among the
+		// intermediates, with >= 2 intermediates below the root: the top intermediate has a root parent AND a
+		// further verified parent at depth >= 3
+		p.kind = "rootcross"
+		save := g.dp
+		clean := r.Intn(4) != 0
+		if clean {
+			g.dp = 0
+		}
+		ra := g.ent(p, "Root 0", 0)
+		first := len(p.specs)
+		g.addCA(p, roleRoot, ra, ra)
+		other := g.ent(p, "Other Authority", 1)
+		switch r.Intn(3) {
+		case 0: // the other authority is trusted too
+			g.addCA(p, roleRoot, other, other)
+		case 1: // untrusted, its self-signed certificate sits among the intermediates
+			g.addCA(p, roleInter, other, other)
+		} // else: untrusted and absent
+		ni := 2 + r.Intn(2)
+		last := ra
+		var cas []int
+		for i := ni - 1; i >= 0; i-- {
+			e := g.ent(p, "Inter "+strconv.Itoa(i), 3+i)
+			g.addCA(p, roleInter, e, last)
+			cas = append(cas, e)
+			last = e
+		}
+		g.addCA(p, roleInter, ra, other) // the cross-certificate of the root
+		if r.Intn(3) == 0 {              // and one of the top intermediate, issued by the other authority
+			g.addCA(p, roleInter, cas[0], other)
+		}
+		if clean {
+			for i := first; i < len(p.specs); i++ {
+				t := p.specs[i].t
+				t.BasicConstraintsValid, t.IsCA, t.MaxPathLen, t.MaxPathLenZero = true, true, -1, false
+				t.KeyUsage = x509.KeyUsageCertSign
+				t.PermittedDNSDomains = nil
+				t.ExtKeyUsage, t.UnknownExtKeyUsage = nil, nil
+				p.specs[i].parentSKI = true
+			}
+		}
+		g.leaves(p, cas, last)
+		g.dp = save
 	default: // AKI/SKI oddities on top of a plain chain: handled by the caller
 		p.kind = "plain2"
 		ra, rb := g.ent(p, "Root 0", 0), g.ent(p, "Root 1", 1)
